@@ -159,6 +159,23 @@ def hashDecode (n : Nat) (inp : Bytes) : Except CborErr Bytes :=
   | .error e => .error e
   | .ok bs => if bs.length = n then .ok bs else .error .msg
 
+/-- `Serialize for Hash<BYTES>` through a JSON serializer: the `Display` string as a JSON string -/
+def hashToJson (h : Bytes) : Bytes := [0x22] ++ hashToHex h ++ [0x22]
+
+/-- `Deserialize for Hash<BYTES>` from JSON text, for texts whose string body needs no JSON
+    unescaping (no `"`, no `\\`, no control character): a JSON string is handed to `FromStr`, anything
+    else is an error (`none`; serde error details are not modelled) -/
+def hashOfJson (n : Nat) (j : Bytes) : Option Bytes :=
+  match j with
+  | 0x22 :: rest =>
+    if rest.getLast? = some 0x22 then
+      let body := rest.dropLast
+      if body.all (fun c => c ≠ 0x22 ∧ c ≠ 0x5c ∧ c.toNat ≥ 0x20) then
+        (match hashFromStr n body with | .ok h => some h | .error _ => none)
+      else none
+    else none
+  | _ => none
+
 /-- `From<&[u8]> for Hash<BYTES>`: `copy_from_slice` panics unless the lengths agree -/
 def hashFromSlice (n : Nat) (bs : Bytes) : Option Bytes := if bs.length = n then some bs else none
 
